@@ -27,13 +27,13 @@ CLAIMED = {
         "DESIGN.md §3.3, §4 C03",
     ),
     "C16": (
-        "SSA escape/taint analysis of per-loop variable addresses (ORD-2) over trees/, rendering/, math/geometry, modeling",
-        "Decides, for every function of the spatial-index packages and on every path, that no query keeps the address of a per-loop "
-        "variable in a queue item / slice / map that outlives the iteration (so the identity a query returns is the identity it measured). "
-        "A structural necessary condition of 'same element identities as exhaustive search' that holds for all element sets, depths and "
-        "queries at once; geometric correctness of pruning is not decided.",
+        "SSA escape/taint analysis of per-loop variable addresses (ORD-2), key homogeneity and heap-contract checks of the best-first queue, prune/accept predicate duality by term substitution, identity plumbing, bounds/conservation/visit-all rules of the octree build and queries, BVH split/hit structure",
+        "Decides for the octree and BVH code, on every path: no query keeps the address of a per-loop variable (ORD-2); all queue keys come from one distance function and are the distance to the queued cell's/element's own closest point (ORD-3, KEY-1), Less/Push/Pop honour the container/heap contract (HEAP-1); "
+        "every cell test is the element test with the cell bounds substituted (PRUNE-1); every index a query emits is elements[i].originalIndex assigned from the input position (IDENT-1); node bounds are one element's bounds or a box grown over every element distributed (BND-1); every element goes to exactly one bucket/leaf and every non-nil child is kept (CONS-1); "
+        "every query visits all children and elements and merges their results (CHILD-1); the BVH split covers [start,end) exactly, the box test comes first, both children are consulted with the second search bounded by the first hit (BVH-1/2). "
+        "Structural necessary conditions of 'same element identities as exhaustive search' for all element sets, depths and queries; geometric correctness of pruning, the slab test and tie handling are not decided.",
         "go/types + go/ssa of x/tools v0.29.0; go.mod language version decides loop-variable semantics; callee retention summaries to depth 4, dynamic calls receiving a value that wraps the pointer are assumed to retain it.",
-        "DESIGN.md §3.9, §4 C16",
+        "DESIGN.md 3.9, 4 C16; checker/props/c16/REPORT.md",
     ),
 }
 
@@ -130,6 +130,15 @@ CLAIMED.update({
         "tokens of a body line are length-tested before being indexed (TOK-1). For the listed formats this is the structural content of the property for all cut positions at once; allocation size, header-text truncation that still parses and gzip framing are not covered.",
         "go/types + go/ssa of x/tools v0.29.0; io.ReadFull/binary.Read EOF contract and non-nil fmt.Errorf/errors.New assumed.",
         "DESIGN.md 3.5, 4 C14; checker/props/c14/REPORT.md",
+    ),
+    "C17": (
+        "symbolic interpretation of go/ssa with polynomial / rational-function normal forms (big.Rat), callee inlining into the vector dependency, one-symbolic-iteration loop summaries; dataflow shadow (SYM-DEP); min/max normal forms for boxes; axis-tag dataflow",
+        "Decides as polynomial identities over the reals (floating-point rounding outside): Matrix4x4.Add entry-wise, Multiply row-by-column, Identity, MulPosition affine action and its agreement with Multiply, Determinant = Leibniz, a*Inverse(a) = I = Inverse(a)*a cross-multiplied by det; "
+        "Quaternion.Multiply = Hamilton product, Rotate = q v conj(q), |Rotate(q,v)|^2 = |q|^4 |v|^2, Rotate(p*q, v) = Rotate(p, Rotate(q, v)), identity laws, Normalize, RotationTo on its general branch modulo unit inputs; TRS.Transform = R(S*v)+T; "
+        "Mesh.Rotate/Translate/Scale/ApplyTRS apply the underlying transform to Position element-wise over the full range with their parameter; AABB laws stated through Min()/Max() (EncapsulatePoint/Bounds, ClosestPoint clamp, Contains/Intersects as the six interval tests, NewAABBFromPoints running min/max) and no comparison/min/max pairs different axes. "
+        "Not covered: rounding, RotationTo's (anti)parallel branches, FromTheta (trigonometry).",
+        "go/types + go/ssa of x/tools v0.29.0; real arithmetic (no overflow / NaN / rounding); sqrt uninterpreted with sqrt(p)^2 = p.",
+        "DESIGN.md 3.4, 4 C17; checker/props/c17/REPORT.md",
     ),
     "C15": (
         "byte-range tiling and writer/reader agreement of the 32-byte .splat record, inverse-function chain pairing, exact-cover decision for affine plane subscripts with symbolic strides, plane order, sign-extension and dequantisation constants, PLY splat property agreement - on go/ssa",
